@@ -269,9 +269,9 @@ fn canary(inv: &Inv, pred: &model::Prediction, out: &run::Outcome, fired: &run::
             // invariants to judge, not for the canary)
             // (and only when the outcome is the one the model predicts anyway - the caller asks
             // the invariants first)
-            if !paths.is_empty() && pred.level == Level::Full && !out.trace.iter().any(|e| e.sym.starts_with("open") || e.sym == "stat") {
-                return Some("a file list was given but no open or stat call was intercepted".into());
-            }
+            // (which calls is the tool's business: a list whose only entry is taken for standard
+            // input shows reads of descriptor 0 and nothing else; the empty trace is caught above)
+            let _ = (mode, paths);
         }
         Shape::FormatAll { .. } => {
             // liveness only (a tool may give up before it walks, e.g. when a lock is refused)
